@@ -38,4 +38,4 @@ Definition shared_sx (prog : rule) : sx :=
 
 (* [Gb; has_next; shared; next_rule only at the root and on disjoint bindings; in the proved fragment] *)
 Definition fragW_sx (prog : rule) (W : list elem) : sx :=
-  SL [SB (Gb prog); SB (has_next prog); shared_sx prog; SB (shape_ok (tree_of prog) W); SB (Fb prog W)].
+  SL [SB (Gb prog); SB (has_next prog); shared_sx prog; SB (shape_ok (tree_of prog) W); SB (Fb prog)].
